@@ -91,6 +91,29 @@ def run(chk):
                          {"atom": dom.show(a), "candidate": v})
                 continue
             chk.ok("R11.1", key=(name, op, value, v))
+    for text, name in (('"3.8" <= python_version', "python_version"), ('"3.8" >= python_version', "python_version"), ('"3.8" < python_version', "python_version"),
+                       ('"3.8" > python_version', "python_version"), ('"3.7.2" <= python_full_version', "python_full_version"),
+                       ('"3.7.2" >= python_full_version', "python_full_version"), ('"3.7.2" < python_full_version', "python_full_version"),
+                       ('"3.7.2" > python_full_version', "python_full_version"), ('"3.7.2" == python_full_version', "python_full_version"),
+                       ('"3.8" != python_version', "python_version")):
+        try:
+            a = dom.parse(text)
+            spec = it.getattr(a, "specifier")
+        except PyRaise as e:
+            chk.fail("R11.1", f"{FN}:literal-left:raises", f"{text!r}: {e.exc!r}")
+            continue
+        for v in (PV_C if name == "python_version" else PFV_C):
+            n += 1
+            try:
+                inspec = it.truth(it.contains(spec, v))
+                ev = dom.evaluate(a, {name: v})
+            except PyRaise as e:
+                chk.fail("R11.1", f"{FN}:literal-left:raises", f"{text!r} at {v}: {e.exc!r}")
+                break
+            if inspec != ev:
+                chk.fail("R11.1", f"{FN}._get_specifier:{name}:literal-left", f"{text!r}: `{v!r} in marker.specifier` is {inspec} but evaluate({{{name!r}: {v!r}}}) is {ev}")
+                break
+            chk.ok("R11.1", key=(text, v))
     chk.rules["R11.1"]["instances"] += n
     # R11.2
     pvs = it.resolve(it.module("dep_logic.specifiers").ns["parse_version_specifier"])
